@@ -44,6 +44,8 @@ pub fn random_block(l: &Layouts, rng: &mut Rng, p: &str, gates: usize, word: u8,
     Block { p: p.to_string(), rec, gates: g, gap }
 }
 
+fn blocks_big(rng: &mut Rng) -> bool { rng.chance(1, 6) }
+
 pub struct Decoded { pub out: &'static str, pub hdr: Value, pub prod: Value, pub end: u64, pub detail: String }
 
 pub fn decode(bytes: &[u8]) -> Decoded {
@@ -114,7 +116,7 @@ pub fn run(args: &Args) {
             let mut tr = TraceOut::create(args.out.as_deref().unwrap_or(""));
             let mut res = Results::create(args.res.as_deref().unwrap_or(""));
             let n = if args.thorough { 1500 } else { 250 };
-            let gate_choices: [usize; 12] = [0, 1, 2, 3, 100, 460, 920, 1192, 1840, 1841, 2500, 4000];
+            let gate_choices: [usize; 16] = [0, 1, 2, 3, 100, 460, 920, 1192, 1840, 1841, 2500, 4000, 4095, 4096, 8192, 65535];
             for k in 0..n {
                 let mut prods: Vec<&str> = PRODUCTS.iter().copied().filter(|_| rng.chance(3, 5)).collect();
                 if k % 10 == 0 { prods = PRODUCTS.to_vec(); }
@@ -122,7 +124,7 @@ pub fn run(args: &Args) {
                 for i in (1..prods.len()).rev() { let j = rng.below(i as u64 + 1) as usize; prods.swap(i, j); }
                 let big = k % 25 == 3;
                 let blocks: Vec<Block> = prods.iter().map(|p| {
-                    let g = if big { *rng.pick(&gate_choices) } else { *rng.pick(&gate_choices[..6]) };
+                    let g = if big { if blocks_big(&mut rng) { *rng.pick(&gate_choices[12..]) } else { *rng.pick(&gate_choices[..12]) } } else { *rng.pick(&gate_choices[..6]) };
                     let w = if rng.chance(1, 3) || matches!(*p, "PHI") { 16 } else { 8 };
                     let gap = *rng.pick(&[0usize, 0, 1, 3, 7]);
                     random_block(&l, &mut rng, p, g, w, gap)
